@@ -57,6 +57,13 @@ def base_problem(alg: str, q: dict):
         Xd = rng.rand(*shape)
         Xd[rng.rand(*shape) < 0.35] = 0.0
         Xd = np.round(Xd * 8)                # integer-valued data: exact under scaling by 2, 1/4; storable as int64
+        if q.get("sparse_mode") and max(shape) >= 4 and len(shape) >= 3:
+            # a sparsely populated mode: the upper half of the slices of the longest mode holds no data (sparse
+            # holders then answer their single-mode products in sparse form)
+            k = int(np.argmax(shape))
+            idx = [slice(None)] * len(shape)
+            idx[k] = slice(shape[k] // 2, None)
+            Xd[tuple(idx)] = 0
     r2 = np.random.RandomState(q["dseed"] + 17)
     if alg in ("hosvd", "tucker_als"):
         # unequal ranks, but none larger than the product of the others (beyond that the extra factor columns are
@@ -249,6 +256,7 @@ def main(tier: str) -> int:
                                  "maxinner": [1, 3, 10][(mi + rep) % 3], "empty_slice": bool((mi + si) % 2 == 0 and alg.startswith("cp_apr")),
                                  "zero_row": bool((mi + si + rep) % 3 != 0 and alg.startswith("cp_apr")),
                                  "stoptime0": bool((mi + si + rep) % 2 == 1 and alg.startswith("cp_apr")),
+                                 "sparse_mode": bool((mi + si + rep) % 2 == 0 and alg == "cp_als"),
                                  "tol": [0.3, 0.05, 0.6][mi % 3], "sequential": bool((mi + rep) % 2)}
                             behaviours.append({"alg": alg, "q": q, "start": start, "pres": pres})
     # long L-BFGS-B runs (stopped by a convergence test, not by the iteration limit): a fresh option object against one
